@@ -27,8 +27,13 @@ LEVEL_TEXT = ("Partial. Unbounded proof: for every byte string (and start positi
               "length; and so does the walk over a resource table as modelled for C28 (table, packages, string pools, type "
               "chunks, entries); nested encoded values (arrays and annotations of any announced size and depth: the model of C04) "
               "are read within (bytes + 1) levels, and the field and method lists of a class_data_item (the model of C05) end "
-              "within (bytes left + 1) passes whatever counts the item announces. Not proved: termination of the complete DEX "
-              "parser (map list, id sections, code items, annotation directories as a whole) and of the zip layer; they are run on "
+              "within (bytes left + 1) passes whatever counts the item announces; the map list of a DEX file as modelled "
+              "(MapList.__init__ and MapItem.parse: the count and the items of the map, then per item its section from its own "
+              "offset - string, type, proto and field id tables, type lists, annotation set ref lists, annotation set items, "
+              "annotations directories) ends on EVERY byte string and offset, a map that is read has at most one item per "
+              "twelve bytes, and the model is compared with the real MapList on generated and damaged maps. Not proved: "
+              "termination of the sections that are not modelled as part of that walk (method ids with their cross references, "
+              "class definitions, code items, string data and annotation items as sections) and of the zip layer; they are run on "
               "mutated, truncated and crafted inputs under a time limit that grows with the input size (reference "
               "resolution in resource tables is C29).")
 LEVEL_NOTE = ("Trusted: Coq kernel; coq/Misc/TermModel.v as a rendering of ARSCHeader.__init__, DebugInfoItem.__init__ and "
@@ -349,3 +354,127 @@ STREAMS = [
     {"name": "whole-parsers", "gen": gen_whole, "impl": impl_whole, "pinned": False, "oracle": oracle_whole, "stats": stats_whole,
      "case_timeout": 30},
 ]
+
+
+# ---- the map list and its sections (coq/Dex/MapWalkModel.v) against the real MapList / MapItem.parse --------------------------------
+# method ids are left out: MethodIdItem resolves its prototype while it is read and fails with AttributeError / KeyError on an index
+# the other tables do not cover (no loop is involved; the model has no cross references)
+MAP_KINDS = [0x0001, 0x0002, 0x0003, 0x0004, 0x1001, 0x1002, 0x1003, 0x2006, 0x1000]
+
+
+def gen_map(rng, tier, ctx):
+    """case = (bytes of the file, offset of the map list)"""
+    cases = []
+
+    def build(nitems, region, wild):
+        wild_map = wild and rng.random() < 0.3        # the map itself is damaged; otherwise only what the sections say about themselves
+        body = bytearray(rb(rng, region))
+        # make some places look like sized lists: a small count followed by records
+        for _ in range(rng.randint(0, 4)):
+            if len(body) >= 8:
+                struct.pack_into("<I", body, rng.randrange(0, len(body) - 4) & ~3, rng.choice((0, 1, 2, 3, 5)))
+        items = []
+        for _ in range(nitems):
+            ty = rng.choice(MAP_KINDS)
+            if wild_map and rng.random() < 0.15:
+                ty = rng.choice((0x0009, 0x1004, 0xFFFF, 0x2007))             # no TypeMapItem
+            count = rng.choice((0, 1, 1, 2, 3, 7, rng.randrange(0, 40), 0xFFFFFFFF if wild else 4, 0x7FFFFFFF if wild else 2))
+            off = rng.choice((0, 4, rng.randrange(0, region + 1), rng.randrange(0, region + 1) & ~3, region, region + 5 if wild else 0,
+                              0xFFFFFFF0 if wild else 8))
+            if not wild:
+                # a well-formed section: written into the body at a 4-aligned offset, the count made to fit
+                off = (rng.randrange(0, region + 1) & ~3) if region else 0
+                room = len(body) - off
+                fixed = {1: 4, 2: 4, 3: 12, 4: 8}
+                if ty in fixed:
+                    count = rng.randint(0, min(6, room // fixed[ty]))
+                elif ty == 0x1000:
+                    count = 1
+                else:
+                    k = {0x1001: 2, 0x1002: 4, 0x1003: 4}.get(ty)
+                    at, count = off, 0
+                    for _ in range(rng.randint(0, 3)):
+                        if ty == 0x2006:
+                            ns = [rng.randint(0, 2) for _ in range(3)]
+                            need = 16 + 8 * sum(ns)
+                            if at + need > len(body):
+                                break
+                            struct.pack_into("<4I", body, at, rng.randrange(1000), *ns)
+                        else:
+                            n = rng.randint(0, 5)
+                            need = 4 + k * n + (2 if ty == 0x1001 and n % 2 else 0)
+                            if at + need > len(body):
+                                break
+                            struct.pack_into("<I", body, at, n)
+                        at += need
+                        count += 1
+            items.append((ty, count, off))
+        # type, proto and field ids look their strings and types up while they are read: the tables they need are in the map
+        kinds = {t for t, _, _ in items}
+        if kinds & {2, 3, 4} and 1 not in kinds:
+            items.insert(rng.randrange(len(items) + 1), (1, rng.choice((0, 1, 3)), rng.randrange(0, region + 1)))
+        if kinds & {3, 4} and 2 not in kinds:
+            items.insert(rng.randrange(len(items) + 1), (2, rng.choice((0, 1, 3)), rng.randrange(0, region + 1) & ~3))
+        if not wild and rng.random() < 0.3 and len(body) >= 4:
+            # a well-formed file with one word changed: often the count of a list
+            struct.pack_into("<I", body, rng.randrange(0, len(body) - 3) & ~3, rng.choice((0xFFFFFFFF, 0x7FFFFFFF, 1000, len(body), 6)))
+        while len(body) % 4:
+            body.append(0)
+        moff = len(body)
+        m = struct.pack("<I", rng.choice((len(items), len(items), len(items) + 1, 0xFFFFFFFF)) if wild_map else len(items))
+        m += b"".join(struct.pack("<HHII", t, rng.randrange(65536), n, o) for t, n, o in items)
+        raw = bytes(body) + m
+        if wild_map and rng.random() < 0.3:
+            raw = raw[:rng.randrange(moff, len(raw) + 1)]
+        return (raw, moff if rng.random() < 0.9 else rng.randrange(0, len(raw) + 3))
+    for _ in range(600 if tier == "thorough" else 120):
+        cases.append(build(rng.randint(0, 6), rng.choice((0, 16, 64, 200)), rng.random() < 0.5))
+    return cases
+
+
+def impl_map(case):
+    from androguard.core.dex import ClassManager, DalvikPacker, MapList
+    raw, off = case
+    cm = ClassManager(None)
+    cm.packer = DalvikPacker(0x12345678)
+    try:
+        ml = MapList(cm, off, io.BytesIO(raw))
+    except struct.error:
+        return Err("StructError")
+    out = []
+    for mi in ml.map_item:
+        it = mi.get_item()
+        if it is ml:
+            n = 0
+        elif isinstance(it, list):
+            n = len(it)
+        else:
+            inner = [getattr(it, a) for a in ("type", "proto", "field_id_items", "method_id_items") if isinstance(getattr(it, a, None), list)]
+            n = len(inner[0])
+        out.append([int(mi.get_type()), mi.get_size(), mi.get_offset(), n])
+    return out
+
+
+def oracle_map(case, res):
+    """independent of the model: the objects of a section are bounded by the bytes of the file, whatever its count says"""
+    if isinstance(res, Err):
+        if res.name == "Timeout":
+            return "MapList on %d bytes (map at %d) did not finish within the time limit" % (len(case[0]), case[1])
+        return None
+    raw, off = case
+    if 12 * len(res) + 4 > len(raw):
+        return "%d map items read from %d bytes" % (len(res), len(raw))
+    for ty, count, o, n in res:
+        if n > len(raw) or n > count:
+            return "section of type 0x%04x: %d objects from a count of %d and %d bytes" % (ty, n, count, len(raw))
+    return None
+
+
+STREAMS.insert(4, {"name": "map-list", "gen": gen_map, "impl": impl_map, "coq_header": "Require Import V.Dex.MapWalkModel.", "coq_type": "list Z * Z",
+                   "coq_input": lambda c: "(%s, %s)" % (zlist(list(c[0])), z(c[1])), "coq_obs": "obs_map", "model_vo": "Dex/MapWalkModel.vo",
+                   "pinned": False, "shard": 60, "oracle": oracle_map, "case_timeout": 20,
+                   "stats": lambda cases, results: {"files": len(cases), "parsed": sum(1 for r in results if not isinstance(r, Err)),
+                                                    "sections": sum(len(r) for r in results if not isinstance(r, Err)),
+                                                    "objects": sum(sum(x[3] for x in r) for r in results if not isinstance(r, Err)),
+                                                    "struct_errors": sum(1 for r in results if isinstance(r, Err) and r.name == "StructError"),
+                                                    "value_errors": sum(1 for r in results if isinstance(r, Err) and r.name == "ValueError")}})
